@@ -104,6 +104,7 @@ def parseAct (j : Json) : Except String Act := do
   | "open" => pure (.openW i)
   | "write" => pure (.write i (← (CacheState.arrAt a 2).getNat?))
   | "close" => pure (.close i)
+  | "replace" => pure (.replace i)
   | k => throw s!"bad-act {k}"
 
 def phaseJson : Phase → Json
